@@ -7,7 +7,6 @@ from hypothesis import strategies as st
 import buidl.shamir as shamir
 from buidl.shamir import Share, ShareSet
 
-from vf import gen
 from vf.core import Discard, Sub, attempt, must, require
 from vf.ref import slip39 as ref
 
@@ -84,40 +83,67 @@ def lib_recover(shares, pw):
 # ---------------------------------------------------------------- strategies
 
 
-def secrets_st():
-    def build(t):
-        long, raw, edge = t
-        n = 32 if long else 16
-        edges = [bytes(n), b"\xff" * n, bytes(n - 1) + b"\x01", b"\x80" + bytes(n - 1),
-                 b"\x00\x00" + b"\xa5" * (n - 2)]
-        return raw[:n] if edge >= len(edges) else edges[edge]
-    return st.tuples(st.booleans(), st.binary(min_size=32, max_size=32), st.integers(0, 14)).map(build)
+# Hypothesis (6.168) builds most examples by mutating earlier ones (copying spans between draws of
+# the same kind), which makes several independent st.binary() draws in one case collapse to equal or
+# all-zero values in the majority of cases (measured: 64 % all-zero seeds).  All byte material is
+# therefore DERIVED, inside the strategy, from a hash of the small 'control' draws: any change of
+# any control gives fresh bytes.  The case record contains the derived values, so ``check`` remains
+# a pure function of the case.
 
 
+def derived(controls, build):
+    controls = dict(controls, nonce=st.integers(0, 2**32 - 1))
+
+    def go(d):
+        rnd = ref.DetRand(hashlib.sha256(repr(sorted(d.items())).encode()).digest())
+        d.pop("nonce")
+        return build(d, rnd)
+    return st.fixed_dictionaries(controls).map(go)
+
+
+def mk_secret(rnd, long, kind):
+    n = 32 if long else 16
+    edges = [bytes(n), b"\xff" * n, bytes(n - 1) + b"\x01", b"\x80" + bytes(n - 1),
+             b"\x00\x00" + b"\xa5" * (n - 2)]
+    raw = rnd.take(n)
+    return edges[kind - 10] if kind >= 10 else raw
+
+
+SECRET_KIND = st.integers(0, 14)
 PASS_EDGES = [b"", b"TREZOR", b"\x00", b" ", b"p" * 64, b"q" * 65, b"\xff" * 130,
               "pässwörd".encode(), b"correct horse battery staple"]
+PASS_KIND = st.integers(0, 11 + len(PASS_EDGES))
 
 
-def passphrases():
-    return st.one_of(st.sampled_from(PASS_EDGES), st.binary(max_size=48))
+def mk_pass(rnd, kind):
+    raw = rnd.take(1 + rnd.take(1)[0] % 48)
+    return PASS_EDGES[kind - 12] if kind >= 12 else raw
+
+
+def mk_perm(rnd):
+    keys = rnd.take(16)
+    return sorted(range(16), key=lambda i: (keys[i], i))
 
 
 def exps():
     return st.sampled_from([0, 0, 0, 0, 0, 1, 2])
 
 
-SEED = st.binary(min_size=8, max_size=8)
-PERM = st.permutations(list(range(16)))
 IDS = st.one_of(st.sampled_from([0, 1, 2**15 - 1, 2**14, 0x00FF, 0x7F00]), st.integers(0, 2**15 - 1))
 
 
 def threshold_strategy(tier):
-    return st.fixed_dictionaries({
-        "secret": secrets_st(), "pw": passphrases(), "e": exps(),
-        "kn": gen.uniform_int(0, len(PAIRS) - 1).map(lambda j: list(PAIRS[j])),
-        "seed": SEED, "perm": PERM, "r_ge": st.integers(0, 15), "r_lt": st.integers(0, 15),
+    def build(d, rnd):
+        return {
+            "secret": mk_secret(rnd, d["long"], d["sk"]), "pw": mk_pass(rnd, d["pk"]), "e": d["e"],
+            "kn": list(d["kn"]), "seed": rnd.take(8), "perm": mk_perm(rnd), "r_ge": d["r_ge"],
+            "r_lt": d["r_lt"], "ref_id": d["ref_id"],
+        }
+    return derived({
+        "long": st.booleans(), "sk": SECRET_KIND, "pk": PASS_KIND, "e": exps(),
+        "kn": st.sampled_from(PAIRS), "r_ge": st.integers(0, 15), "r_lt": st.integers(0, 15),
         "ref_id": IDS,
-    })
+    }, build)
 
 
 def check_fields(shares, k, n, e, nbytes, bucket):
@@ -263,15 +289,19 @@ PAIRS2 = [(k, n) for (k, n) in PAIRS if n >= 2]
 
 
 def mixing_strategy(tier):
-    return st.fixed_dictionaries({
-        "s16": st.lists(st.binary(min_size=16, max_size=16), min_size=2, max_size=2, unique=True),
-        "s32": st.lists(st.binary(min_size=32, max_size=32), min_size=2, max_size=2, unique=True),
-        "a_is_32": st.booleans(), "pw": passphrases(), "e": st.sampled_from([0, 0, 0, 1, 2]),
+    def build(d, rnd):
+        pk = d.pop("pk")
+        return dict(
+            d, kn=list(d["kn"]), s16=[rnd.take(16), rnd.take(16)], s32=[rnd.take(32), rnd.take(32)],
+            pw=mk_pass(rnd, pk), seeds=[rnd.take(8), rnd.take(8)], perm=mk_perm(rnd),
+            r=list(rnd.take(4)),
+        )
+    return derived({
+        "a_is_32": st.booleans(), "pk": PASS_KIND, "e": st.sampled_from([0, 0, 0, 1, 2]),
         "kn": st.sampled_from(PAIRS2), "kind": st.sampled_from(MIX_KINDS),
         "mode": st.sampled_from(MIX_MODES), "id": IDS, "delta": st.integers(1, 2**15 - 1),
-        "seeds": st.lists(SEED, min_size=2, max_size=2, unique=True), "perm": PERM,
-        "r": st.lists(st.integers(0, 255), min_size=4, max_size=4), "b_first": st.booleans(),
-    })
+        "b_first": st.booleans(),
+    }, build)
 
 
 def check_mixing(case, ctx):
@@ -306,7 +336,8 @@ def check_mixing(case, ctx):
                      bytes(case["seeds"][0]), ida)
     B = lib_generate("mixing/generate", ref.bip39_encode(sb), kb, nb, pw, eb,
                      bytes(case["seeds"][1]), idb)
-    da, db = ref.decode_share(A[0]), ref.decode_share(B[0])
+    da = check_fields(A, k, n, e, len(sa), "mixing")[0]
+    db = check_fields(B, kb, nb, eb, len(sb), "mixing")[0]
     if (da["id"] != db["id"]) != (kind == "diff_id"):
         ctx.label("identifier_pin_ineffective")  # the reference below still decides
     # choose the mixture: at least one share of each split
@@ -358,24 +389,24 @@ def check_mixing(case, ctx):
 # ------------------------------------------------------------------- codec
 
 
-def fields_st():
-    # flat draws + a map (no flatmap: much cheaper for Hypothesis); gt <= gc and gi < gc by
-    # construction
-    def build(d):
-        n = 32 if d["long"] else 16
-        edges = [bytes(n), b"\xff" * n, bytes(n - 1) + b"\x01", b"\x00" + b"\xff" * (n - 1),
-                 b"\x00" + bytes(d["raw"][1:n])]
-        value = bytes(d["raw"][:n]) if d["edge"] >= len(edges) else edges[d["edge"]]
-        gc = d["gc"]
-        return {"id": d["id"], "e": d["e"], "gc": gc, "gt": 1 + d["gt_r"] % gc,
-                "gi": d["gi_r"] % gc, "mi": d["mi"], "mt": d["mt"], "value": value}
+FIELD_CONTROLS = {
+    "id": IDS, "e": st.one_of(st.sampled_from([0, 1, 2]), st.integers(0, 15)),
+    "gc": st.integers(1, 16), "gt_r": st.integers(0, 15), "gi_r": st.integers(0, 15),
+    "mi": st.integers(0, 15), "mt": st.integers(1, 16), "long": st.booleans(),
+    "edge": st.integers(0, 14),
+}
 
-    return st.fixed_dictionaries({
-        "id": IDS, "e": st.one_of(st.sampled_from([0, 1, 2]), st.integers(0, 15)),
-        "gc": st.integers(1, 16), "gt_r": st.integers(0, 15), "gi_r": st.integers(0, 15),
-        "mi": st.integers(0, 15), "mt": st.integers(1, 16), "long": st.booleans(),
-        "raw": st.binary(min_size=32, max_size=32), "edge": st.integers(0, 14),
-    }).map(build)
+
+def mk_fields(d, rnd):
+    """flat draws (no flatmap); gt <= gc and gi < gc by construction"""
+    n = 32 if d["long"] else 16
+    raw = rnd.take(n)
+    edges = [bytes(n), b"\xff" * n, bytes(n - 1) + b"\x01", b"\x00" + b"\xff" * (n - 1),
+             b"\x00" + raw[1:]]
+    value = edges[d["edge"] - 10] if d["edge"] >= 10 else raw
+    gc = d["gc"]
+    return {"id": d["id"], "e": d["e"], "gc": gc, "gt": 1 + d["gt_r"] % gc,
+            "gi": d["gi_r"] % gc, "mi": d["mi"], "mt": d["mt"], "value": value}
 
 
 def ref_text(f):
@@ -384,7 +415,7 @@ def ref_text(f):
 
 
 def codec_strategy(tier):
-    return st.fixed_dictionaries({"f": fields_st()})
+    return derived(FIELD_CONTROLS, lambda d, rnd: {"f": mk_fields(d, rnd)})
 
 
 def compare_share(s, f, bucket):
@@ -420,12 +451,17 @@ def check_codec(case, ctx):
 
 
 def corruption_strategy(tier):
-    return st.fixed_dictionaries({
-        "f": fields_st(), "mode": st.sampled_from(["multi", "multi", "multi", "single_all"]),
-        "pos": st.lists(st.integers(0, 32), min_size=1, max_size=3),
-        "delta": st.lists(st.integers(1, 1023), min_size=3, max_size=3),
-        "region": st.sampled_from(["any", "header", "checksum", "value"]),
-    })
+    def build(d, rnd):
+        return {
+            "f": mk_fields(d, rnd), "mode": d["mode"], "ne": d["ne"], "region": d["region"],
+            "pos": list(rnd.take(3)),
+            "delta": [1 + int.from_bytes(rnd.take(2), "big") % 1023 for _ in range(3)],
+        }
+    return derived(dict(
+        FIELD_CONTROLS, mode=st.sampled_from(["multi", "multi", "multi", "multi", "single_all"]),
+        ne=st.sampled_from([1, 2, 3, 3]),
+        region=st.sampled_from(["any", "any", "header", "checksum", "value"]),
+    ), build)
 
 
 def check_corruption(case, ctx):
@@ -437,11 +473,10 @@ def check_corruption(case, ctx):
     ctx.nontrivial()
     region = case["region"]
     lo, hi = {"any": (0, nw), "header": (0, 4), "checksum": (nw - 3, nw), "value": (4, nw - 3)}[region]
+    free = list(range(lo, hi))  # distinct positions by construction
     positions = []
-    for p in case["pos"]:
-        p = lo + p % (hi - lo)
-        if p not in positions:
-            positions.append(p)
+    for p in list(case["pos"])[: case["ne"]]:
+        positions.append(free.pop(p % len(free)))
     for p in positions:
         ctx.label("pos:" + ("header" if p < 4 else "checksum" if p >= nw - 3 else "value"))
     must(Share.parse, "corruption/valid_share_rejected", m)
@@ -478,9 +513,11 @@ def check_corruption(case, ctx):
 
 
 def crypt_strategy(tier):
-    return st.fixed_dictionaries({
-        "payload": secrets_st(), "id": IDS, "e": exps(), "pw": passphrases(),
-    })
+    def build(d, rnd):
+        return {"payload": mk_secret(rnd, d["long"], d["sk"]), "id": d["id"], "e": d["e"],
+                "pw": mk_pass(rnd, d["pk"])}
+    return derived({"long": st.booleans(), "sk": SECRET_KIND, "pk": PASS_KIND, "id": IDS,
+                    "e": exps()}, build)
 
 
 def check_crypt(case, ctx):
@@ -569,25 +606,21 @@ def check_pairs(case, ctx):
 
 
 def interp_strategy(tier):
-    def build(d):
-        k = d.pop("k")
-        rnd = ref.DetRand(d.pop("xs_seed"))
+    def build(d, rnd):
+        k = d["k"]
         xs = []
         while len(xs) < k:
             v = rnd.take(1)[0]
             if v not in xs:
                 xs.append(v)
-        if d.pop("consecutive"):
+        if d["consecutive"]:
             xs = list(range(k))
-        return dict(d, xs=xs)
+        return {"xs": xs, "width": d["width"], "seed": rnd.take(8), "zero_top": d["zero_top"]}
 
-    return st.fixed_dictionaries({
-        "k": st.integers(1, 16), "consecutive": st.sampled_from([False, False, True]),
-        "xs_seed": SEED,
-        "width": st.sampled_from([1, 4, 16, 32]),
-        "seed": SEED,
-        "zero_top": st.booleans(),
-    }).map(build)
+    return derived({
+        "k": st.sampled_from(list(range(1, 17))), "consecutive": st.sampled_from([False, False, True]),
+        "width": st.sampled_from([1, 4, 16, 32]), "zero_top": st.booleans(),
+    }, build)
 
 
 def check_interp(case, ctx):
